@@ -69,7 +69,11 @@ VARIANTS = {
     "asan": ("clang", "clang++", ["-O1", "-fPIC", "-g", "-fsanitize=address,undefined",
                                    "-fno-sanitize-recover=undefined", "-fno-omit-frame-pointer", "-mavx",
                                    "-DmjUSEPLATFORMSIMD"]),
+    # data-race detection for the free-running thread-pool harnesses (C02)
+    "tsan": ("clang", "clang++", ["-O1", "-fPIC", "-g", "-fsanitize=thread", "-fno-omit-frame-pointer", "-mavx",
+                                   "-DmjUSEPLATFORMSIMD"]),
 }
+SANLINK = {"asan": "-fsanitize=address,undefined", "tsan": "-fsanitize=thread"}
 
 
 def base_flags(variant):
@@ -156,8 +160,8 @@ def build_lib(variant="plain", quiet=True):
             os.makedirs(ldir, exist_ok=True)
             cc, cxx, fl = base_flags(variant)
             cmd = [cxx, "-shared", "-o", lib + ".tmp"] + objs + ["-lm", "-lpthread", "-ldl"]
-            if variant == "asan":
-                cmd.insert(1, "-fsanitize=address,undefined")
+            if variant in SANLINK:
+                cmd.insert(1, SANLINK[variant])
             r = subprocess.run(cmd, capture_output=True, text=True)
             if r.returncode != 0:
                 raise BuildError("link failed\n" + r.stderr[-4000:])
@@ -193,8 +197,8 @@ def build_harness(name, sources, variant="plain", extra=(), link_lib=True, libs=
         if not os.path.exists(exe):
             cc, cxx, fl = base_flags(variant)
             cmd = [cxx, "-o", exe + ".tmp"] + objs
-            if variant == "asan":
-                cmd.insert(1, "-fsanitize=address,undefined")
+            if variant in SANLINK:
+                cmd.insert(1, SANLINK[variant])
             if lib:
                 cmd += [lib, "-Wl,-rpath," + os.path.dirname(lib)]
             cmd += list(libs) + list(ldflags) + ["-lm", "-lpthread", "-ldl"]
